@@ -50,7 +50,9 @@ class IndexedAnalysis:
         )
 
     def profile_log_likelihood_function(self, paths: AbstractPaths, instance):
-        return self.profile_log_likelihood_function(paths, instance[self.index])
+        return self.analysis.profile_log_likelihood_function(
+            paths, instance[self.index]
+        )
 
     def __getattr__(self, item):
         if item in ("__getstate__", "__setstate__"):
